@@ -105,7 +105,19 @@ structure LogFile where
   batches : List (List Rec) := []
   /-- bytes after the last complete record that do not parse as a record -/
   garbage : Bool := false
+  /-- the sequence number in the header of each batch (`batchrepr` header, `nextBatchSeqNum`) -/
+  seqs : List Nat := []
   deriving Repr, DecidableEq, Inhabited
+
+/-- Pebble's `virtualWALReader.NextRecord`: a batch whose header says `Count == 0`, or whose
+sequence number is not above the last one returned, is skipped silently. -/
+def visibleFrom (last : Nat) : List (List Rec) → List Nat → List (List Rec × Nat)
+  | b :: bs, q :: qs =>
+    if b.isEmpty || decide (q ≤ last) then visibleFrom last bs qs else (b, q) :: visibleFrom q bs qs
+  | _, _ => []
+
+/-- the batches a reader of the log returns -/
+def LogFile.visible (f : LogFile) : List (List Rec) := (visibleFrom 0 f.batches f.seqs).map (·.1)
 
 structure Disk where
   /-- `NNNNNN.log`, ascending by number -/
@@ -116,16 +128,18 @@ structure Disk where
   wm : Option Nat := none
   /-- `prune-watermark.tmp` exists (it is never read) -/
   tmp : Bool := false
-  /-- the previous content of `prune-watermark`, when the rename that replaced it has not been made
-  durable by a directory sync (the sync failed): a crash may bring it back -/
-  wmAlt : Option (Option Nat) := none
+  /-- earlier contents of `prune-watermark` (newest first) whose replacement by a rename has not been
+  made durable by a directory sync (the sync failed, possibly several times in a row): a crash may
+  bring any of them back -/
+  wmAlt : List (Option Nat) := []
   deriving Repr, DecidableEq, Inhabited
 
 def Disk.setGarbage (d : Disk) (n : Nat) (g : Bool) : Disk :=
   { d with files := d.files.map (fun f => if f.num = n then { f with garbage := g } else f) }
 
-def Disk.appendBatch (d : Disk) (n : Nat) (b : List Rec) : Disk :=
-  let upd := fun (f : LogFile) => if f.num = n then { f with batches := f.batches ++ [b] } else f
+def Disk.appendBatch (d : Disk) (n : Nat) (b : List Rec) (q : Nat) : Disk :=
+  let upd := fun (f : LogFile) =>
+    if f.num = n then { f with batches := f.batches ++ [b], seqs := f.seqs ++ [q] } else f
   { d with files := d.files.map upd }
 
 def pick {α : Type} : List Bool → List α → List α
@@ -143,10 +157,14 @@ def insertFile (z : LogFile) : List LogFile → List LogFile
     else f :: insertFile z fs
 
 /-- A crash: the unlinks that were not made durable may be undone, any subset of them; with
-`alt` a watermark rename that was not made durable is undone as well. -/
-def Disk.resurrect (d : Disk) (mask : List Bool) (alt : Bool := false) : Disk :=
+`alt = k+1` the watermark renames that were not made durable are undone back to the `k`-th
+remembered content (`alt = 0`: the watermark stays). -/
+def Disk.resurrect (d : Disk) (mask : List Bool) (alt : Nat := 0) : Disk :=
   { d with files := (pick mask d.zombies).foldr insertFile d.files, zombies := [],
-           wm := if alt then d.wmAlt.getD d.wm else d.wm, wmAlt := none }
+           wm := match alt with
+             | 0 => d.wm
+             | k + 1 => (d.wmAlt[k]?).getD d.wm,
+           wmAlt := [] }
 
 /-! ### The store -/
 
@@ -165,6 +183,8 @@ structure Store where
   /-- the logs Pebble's WAL manager knows (`initialObsolete` ++ `queue`): the only ones
   `Manager.Obsolete` hands out for deletion -/
   known : List Nat := []
+  /-- `nextBatchSeqNum` -/
+  nextSeq : Nat := 1
   deriving Repr, DecidableEq
 
 inductive Outcome where
@@ -241,7 +261,7 @@ def ensureWriter (s : Store) (d : Disk) : Store × Disk × Disk :=
   | none =>
     ({ s with writer := some s.nextWAL, nextWAL := s.nextWAL + 1, known := s.known ++ [s.nextWAL] },
      { d with files := d.files ++ [{ num := s.nextWAL }] },
-     { d with files := d.files ++ [{ num := s.nextWAL }], zombies := [], wmAlt := none })
+     { d with files := d.files ++ [{ num := s.nextWAL }], zombies := [], wmAlt := [] })
 
 /-- Of the obsolete logs `cand` (ascending), the ones that do get unlinked under the failure. -/
 def Fault.removable (ft : Fault) (cand : List LogFile) : List LogFile :=
@@ -261,13 +281,13 @@ def Fault.cleanupFails (ft : Fault) (cand : List LogFile) : Bool :=
 batch indexed, `d` has it on disk in log `n`. -/
 def cleanup (s : Store) (d : Disk) (n : Nat) (ft : Fault) : OpRes :=
   let dTmp := { d with tmp := true }
-  let dRen := { d with wm := some s.idx.pruned, tmp := true, wmAlt := some d.wm }
-  let dRen' := { d with wm := some s.idx.pruned, tmp := false, wmAlt := some d.wm }
+  let dRen := { d with wm := some s.idx.pruned, tmp := true, wmAlt := d.wm :: d.wmAlt }
+  let dRen' := { d with wm := some s.idx.pruned, tmp := false, wmAlt := d.wm :: d.wmAlt }
   if ft = .wmSync then
     -- syncDir fails: writePruneWatermark returns the error, nothing else happens
     ⟨s, dRen', .errCommitted, [(dTmp, true), (dRen, true), (dRen', true)], []⟩
   else
-    let dWm := { d with wm := some s.idx.pruned, tmp := false, zombies := [], wmAlt := none }
+    let dWm := { d with wm := some s.idx.pruned, tmp := false, zombies := [], wmAlt := [] }
     -- rotateAfterSynced: the writer is closed (an EOF trailer is appended; when that fails the
     -- tail is cut back to the synced offset)
     let dTrail := dWm.setGarbage n true
@@ -297,7 +317,7 @@ def flushLocked (s : Store) (d : Disk) (ft : Fault) : OpRes :=
     let d1 := (ensureWriter s d).2.2
     let bs1 := [(d, false), (dNew, false), (d1, false)]
     let dTorn := d1.setGarbage n true
-    let dFull := d1.appendBatch n s.pending
+    let dFull := d1.appendBatch n s.pending s.nextSeq
     if ft = .append then
       -- abortUncommitted: close the writer, truncate back to the synced offset
       ⟨{ s1 with writer := none }, d1, .errNotCommitted,
@@ -307,7 +327,8 @@ def flushLocked (s : Store) (d : Disk) (ft : Fault) : OpRes :=
         bs1 ++ [(dTorn, false)], []⟩
     else
       -- appended and synced; updateIndexesFromCommittedRecords
-      let s2 := { s1 with idx := s1.idx.applyRecs n s.pending, pending := [] }
+      let s2 := { s1 with idx := s1.idx.applyRecs n s.pending, pending := [],
+                          nextSeq := s.nextSeq + s.pending.length }
       let bs2 := bs1 ++ [(dTorn, false), (dFull, true)]
       let prunes := countPrunes s.pending
       -- removeObsoleteWALFiles
@@ -321,6 +342,33 @@ def flushLocked (s : Store) (d : Disk) (ft : Fault) : OpRes :=
         else
           let r := cleanup s3 dFull n ft
           { r with bases := bs2 ++ r.bases }
+
+/-- A name for each element of `(cleanup …).bases` (for the harness: which crash point of the real
+code corresponds to which durable state; `ProofsRun.flushTags_length` keeps the two lists aligned). -/
+def cleanupTags (ft : Fault) : List String :=
+  if ft = .wmSync then ["tmp", "ren", "ren'"]
+  else ["tmp", "ren", "ren'", "wm", "trail", "rot", "gc"]
+
+/-- A name for each element of `(flushLocked s d ft).bases`. -/
+def flushTags (s : Store) (ft : Fault) : List String :=
+  if s.closed then ["pre"]
+  else if s.pending.isEmpty then ["pre"]
+  else if s.repairRequired then ["pre"]
+  else if ft = .create && s.writer.isNone then ["pre"]
+  else
+    let bs1 := ["pre", "created", "synced"]
+    if ft = .append then bs1 ++ ["torn", "full", "repaired"]
+    else if ft = .appendNoRepair then bs1 ++ ["torn"]
+    else
+      let bs2 := bs1 ++ ["torn", "full"]
+      if countPrunes s.pending = 0 then bs2
+      else if s.sinceCleanup + countPrunes s.pending < cleanupInterval then bs2
+      else if ft = .watermark then bs2 ++ ["tmp", "tmpgone"]
+      else bs2 ++ cleanupTags ft
+
+/-- … of `(closeStore s d ft).bases`. -/
+def closeTags (s : Store) (ft : Fault) : List String :=
+  if s.closed then ["pre"] else flushTags s ft ++ ["closing", "closed"]
 
 def Outcome.committed : Outcome → Bool
   | .ok => true
@@ -347,7 +395,11 @@ def clearLastGarbage : List LogFile → List LogFile
 /-- `nextWALNum`. -/
 def nextNum (files : List LogFile) : Nat := files.foldl (fun m f => max m (f.num + 1)) 1
 
-def replayFile (x : Idx) (f : LogFile) : Idx := f.batches.foldl (fun y b => y.applyRecs f.num b) x
+def replayFile (x : Idx) (f : LogFile) : Idx := f.visible.foldl (fun y b => y.applyRecs f.num b) x
+
+/-- `applyEncodedBatch`: `nextBatchSeqNum` becomes at least `SeqNum + Count` of every batch read -/
+def seqAfterFile (m : Nat) (f : LogFile) : Nat :=
+  (visibleFrom 0 f.batches f.seqs).foldl (fun m p => max m (p.2 + p.1.length)) m
 
 def replayFiles (x : Idx) (files : List LogFile) : Idx := files.foldl replayFile x
 
@@ -362,7 +414,7 @@ def openStore (d : Disk) : Except OpenErr (Store × Disk) :=
   if files.any (·.garbage) then .error .corruptLog
   else
     .ok ({ nextWAL := nextNum files, idx := replayFiles { pruned := d.wm.getD 0 } files,
-           known := files.map (·.num) },
+           known := files.map (·.num), nextSeq := files.foldl seqAfterFile 1 },
          { d with files := files })
 
 /-- What a restarted validator sees: `LoadAllEntries` after `NewTendermintWALStore`. -/
@@ -397,7 +449,7 @@ inductive Op where
   | reopen
   /-- crash while `c` runs, at its `i`-th durable state, resurrecting the zombies chosen by `mask`
   (and with `alt` undoing an undurable watermark rename) -/
-  | crash (c : COp) (i : Nat) (mask : List Bool) (alt : Bool)
+  | crash (c : COp) (i : Nat) (mask : List Bool) (alt : Nat)
   deriving DecidableEq, Repr
 
 /-- The durable states `c` passes through when started in `sys`. -/
@@ -416,7 +468,7 @@ def allMasks : Nat → List (List Bool)
 /-- All crash images of `c` started in `sys`. -/
 def Sys.images (sys : Sys) (c : COp) : List (Disk × Bool) :=
   (sys.bases c).flatMap (fun b => (allMasks b.1.zombies.length).flatMap
-    (fun m => [(b.1.resurrect m false, b.2), (b.1.resurrect m true, b.2)]))
+    (fun m => (List.range (b.1.wmAlt.length + 1)).map (fun alt => (b.1.resurrect m alt, b.2))))
 
 def Sys.step (sys : Sys) : Op → Sys × Outcome
   | .set h e =>
@@ -462,6 +514,25 @@ def Sys.run (sys : Sys) (ops : List Op) : Sys := ops.foldl (fun s o => (s.step o
 def Sys.init : Sys := {}
 
 
+/-! ### Aliasing (record.go `setEntry`) -/
+
+/-- Set to `true` once `setEntry` copies `Proposal.Value` / `Vote.ID` (proposed-fixes/
+C14-setentry-deep-copy.diff): the caller can then no longer reach the buffered entry. -/
+def aliasFixed : Bool := false
+
+def pokeAt : List Rec → Nat → Nat → List Rec
+  | [], _, _ => []
+  | .entry h _ :: rs, 0, e' => .entry h e' :: rs
+  | r :: rs, 0, _ => r :: rs
+  | r :: rs, i + 1, e' => r :: pokeAt rs i e'
+
+/-- Not an API call: the caller writes through the `*Value` / `*ID` pointer of an entry it has
+already handed to `SetWALEntry`. `setEntry` copies the entry struct but not what these pointers
+refer to, so the `i`-th buffered record now carries a different payload (`e'`) when it is encoded
+at Flush time. -/
+def Store.poke (s : Store) (i e' : Nat) : Store :=
+  if aliasFixed then s else { s with pending := pokeAt s.pending i e' }
+
 /-! ### What the property says a restarted validator must see -/
 
 /-- The highest height of a prune call in a history of API calls (`0`: none; juno's watermark
@@ -486,5 +557,21 @@ structure LoadSpec (out : List (Nat × List Nat)) (A : List Rec) : Prop where
   sorted : (out.map (·.1)).Pairwise (· < ·)
   nonempty : ∀ p ∈ out, p.2 ≠ []
   exact : ∀ h, (AMap.get? out h).getD [] = if h ≤ maxPrune A then [] else entriesOf h A
+
+/-- "Pruned" without juno's encoding of "nothing pruned" as watermark 0: a height is pruned iff
+some acknowledged prune call covers it. -/
+def prunedIdeal (A : List Rec) (h : Nat) : Bool :=
+  A.any (fun r => match r with
+    | .prune p => decide (h ≤ p)
+    | .entry _ _ => false)
+
+/-- `LoadSpec` with the ideal notion of "pruned" (a height-0 entry counts like any other). -/
+structure LoadSpecIdeal (out : List (Nat × List Nat)) (A : List Rec) : Prop where
+  sorted : (out.map (·.1)).Pairwise (· < ·)
+  nonempty : ∀ p ∈ out, p.2 ≠ []
+  exact : ∀ h, (AMap.get? out h).getD [] = if prunedIdeal A h then [] else entriesOf h A
+
+/-- every entry call of the history is for a height ≥ 1 (juno's consensus starts at height 1) -/
+def HeightsPositive (A : List Rec) : Prop := ∀ h e, Rec.entry h e ∈ A → 0 < h
 
 end Juno.C14
